@@ -18,6 +18,7 @@
 #include "tlwe_functions.h"
 #include "tgsw_functions.h"
 
+#include "ro_mem.h"
 typedef long long ll;
 typedef std::vector<ll> V;
 
@@ -142,6 +143,16 @@ static void op_poly(const V &a, V &r) {  // opcode N p a(N) b(N) [c(N)]
     for (int i = 0; i < N; i++) { A->coefsT[i] = AI->coefs[i] = (int32_t) a[3 + i]; B->coefsT[i] = (int32_t) a[3 + N + i];
         R->coefsT[i] = hasc ? (int32_t) a[3 + 2 * N + i] : 424242 + i; RI->coefs[i] = 31337; }
     int32_t *outp = R->coefsT;
+    // opcode + 1000: every operand the routine takes as const lives in read-only memory during the call
+    const bool ro = opc >= 1000; if (ro) opc -= 1000;
+    RoArena arena(3 * (size_t) N * 4 + 4096);
+    if (ro) {
+        const bool a_out = (opc >= 20 && opc <= 23) || opc == 112 || opc == 113, b_out = opc == 102 || opc == 103, ai_out = opc == 26;
+        if (!a_out) A->coefsT = (int32_t *) arena.put(A->coefsT, 4 * (size_t) N);
+        if (!b_out) B->coefsT = (int32_t *) arena.put(B->coefsT, 4 * (size_t) N);
+        if (!ai_out) AI->coefs = (int32_t *) arena.put(AI->coefs, 4 * (size_t) N);
+        arena.seal();
+    }
     switch (opc) {
         case 0: torusPolynomialAdd(R, A, B); break;
         case 1: torusPolynomialSub(R, A, B); break;
@@ -167,6 +178,7 @@ static void op_poly(const V &a, V &r) {  // opcode N p a(N) b(N) [c(N)]
         case 25: intPolynomialMulByXaiMinusOne(RI, p, AI); outp = RI->coefs; break;
         case 26: intPolynomialAddTo(AI, AI); outp = AI->coefs; break;
     }
+    if (ro) arena.unseal();
     if (!(ga.intact() && gb.intact() && gr.intact() && gai.intact() && gri.intact())) { for (int i = 0; i < 4; i++) r.push_back(-1); }
     else for (int i = 0; i < N; i++) r.push_back(outp[i]);
     A->coefsT = oa; B->coefsT = ob; R->coefsT = orr; AI->coefs = oai; RI->coefs = ori;
